@@ -233,3 +233,9 @@ def r9(ctx):
             ctx.ob(f"{Q}:control_frame={cf!r}:failed-pong-write-propagates", False,
                    f"the pong's write fails and recv_data_frame ends as {bad[0].kind} {bad[0].exc_class or bad[0].value!r} ({len(bad)} of {len(failed)} paths): the receive call goes on "
                    f"(or returns) although the ping was not answered; the next pong is written behind a missing or half-written one", loc, {"path": path_text(bad[0])})
+
+
+@rule("R-C07-10", min_instances=6, title="the pong is written inside the read-lock section that took the ping: with several receiving threads pongs still leave in the order the pings arrived and before anything further is read")
+def r_sib_r_c07_10(ctx):
+    from .c12 import r3 as read_side_sections
+    read_side_sections(ctx)
